@@ -222,6 +222,12 @@ pub fn run(req: &J) -> J {
       probe_texts.push(format!("{} = 1", n));
       probe_texts.push(format!("{}[1] = 1", n));
       probe_texts.push(format!("{} += 1", n));
+      // sources of another kind / undefined sources: whether they are accepted is not specified, a failure must change nothing
+      probe_texts.push(format!("{} = \"zzs\"", n));
+      probe_texts.push(format!("{} = 6u8", n));
+      probe_texts.push(format!("{}[1] = \"zzs\"", n));
+      probe_texts.push(format!("{} += \"zzs\"", n));
+      probe_texts.push(format!("{} = zzundefq + 1", n));
       // op-assignment whose source is another VARIABLE of the same kind and shape (an unaliased copy: n + 0)
       probe_texts.push(format!("zzk{} := {} + 0", i, n));
       probe_texts.push(format!("{} += zzk{}", n, i));
